@@ -116,3 +116,79 @@ class T2Extractor(Contract):
                    len(a.ex.operandStack) == 0)
 
     ensures = [prop("pen-calls-equal-TN5177-semantics", lambda a, old, r: T2Extractor._post(a))]
+
+
+# -- operand stack use across subroutine calls (C12: 'emitted programs respect the operand-stack limit') --
+
+STACK_SHAPES = {
+    # name: (top-level program builder over counts) - 'S<k>' = callsubr to local subr k, 'G<k>' = callgsubr
+    "flat": ([5, "rlineto", 60, "rlineto"], {}, {}),
+    "deep-in-local-subr": ([2, "rmoveto", "S0", "endchar"], {0: [60, "rlineto", "return"]}, {}),
+    "deep-in-global-subr": ([2, "rmoveto", "G0"], {}, {0: [50, "rlineto", "return"]}),
+    "args-on-stack-at-call": ([10, "S0", "rlineto"], {0: [45, "return"]}, {}),
+    "nested": ([1, "S0"], {0: [3, "S1", "return"], 1: [52, "rrcurveto", "return"]}, {}),
+    "subr-then-more-top-level": ([2, "rmoveto", "S0", 49, "rlineto"], {0: [7, "rlineto", "return"]}, {}),
+}
+
+
+def _stack_spec(top, subrs, gsubrs):
+    """maximal operand-stack depth of the flattened execution (path operators clear the stack,
+    a subroutine number is an operand until the call consumes it)"""
+    depth, best = 0, 0
+
+    def run(prog):
+        nonlocal depth, best
+        for t in prog:
+            if isinstance(t, int):
+                depth += t
+                best = max(best, depth)
+            elif t[0] in "SG" and t[1:].isdigit():
+                depth += 1                      # the subroutine number
+                best = max(best, depth)
+                depth -= 1
+                run((subrs if t[0] == "S" else gsubrs)[int(t[1:])])
+            elif t == "return":
+                pass
+            else:
+                depth = 0
+    run(top)
+    return best
+
+
+@contract
+class StackUseAcrossSubroutines(Contract):
+    module = "fontTools.misc.psCharStrings"
+    qualname = "T2StackUseExtractor.execute"
+    props = ("C12",)
+    shadow_mode = "real"
+    variants = tuple(STACK_SHAPES)
+    level = "PF"
+
+    def args(self, S, variant):
+        from fontTools.misc.psCharStrings import T2CharString, T2StackUseExtractor
+        top, subrs, gsubrs = STACK_SHAPES[variant]
+        k = 0
+
+        def build(prog, table):
+            nonlocal k
+            out = []
+            for t in prog:
+                if isinstance(t, int):
+                    for _ in range(t):
+                        out.append(S.real("x%d" % k))
+                        k += 1
+                elif t[0] in "SG" and t[1:].isdigit():
+                    n = len(subrs if t[0] == "S" else gsubrs)
+                    bias = 107 if n < 1240 else 1131
+                    out += [int(t[1:]) - bias, "callsubr" if t[0] == "S" else "callgsubr"]
+                else:
+                    out.append(t)
+            cs = T2CharString()
+            cs.program = out
+            return cs
+        ls = [build(subrs[i], subrs) for i in sorted(subrs)]
+        gs = [build(gsubrs[i], gsubrs) for i in sorted(gsubrs)]
+        ex = T2StackUseExtractor(ls, gs, private=None)
+        return dict(self=ex, charString=build(top, None), _want=_stack_spec(top, subrs, gsubrs))
+
+    ensures = [prop("maximum-depth-of-the-flattened-execution", lambda a, old, r: r == a._want)]
